@@ -28,7 +28,7 @@ RULE = ('cases: non-negative images with rows, cols drawn independently from 1..
         'smooth-positive / sparse point-source / constant images; pixel with oversample 1..5, jitter with scale 0..1.5 px, smear with '
         'distance 0..4 px (tail to 8) and angle in [0,360) incl. 0/45/90, also angle=None under a seeded global generator; integer and fractional oversampling; default arguments; pixelate; extents also given in physical units with a pixel scale; the call is made on the caller\'s own array; circular shifts '
         'of either sign; zero extent. distinct = (kind, shape, parameters, roll); non-trivial = non-square or oversample ≠ 1 or '
-        'physical units (outside what the test-suite samples)')
+        'physical units (outside what the test-suite samples) A ≈5 % sample (search tier: a leading block of 220) comes from an extremes stream: pixel scales 1e-12 … 1e-8 and 1e3 … 1e9 with multi-pixel extents, int16/int32/uint8/uint16/uint32/int64 frames at the limits of their dtype (totals beyond 2³¹), image amplitudes 1e-100 … 1e9, extents 0 / 5e-324 / 1e-300 / 25–60 px, frames of 257–1024 samples along one axis (search only); all tolerances are relative to Σ img.')
 TRUSTED = ['np.fft.fft2 / ifft2 are the un-normalised DFT and its inverse with origin at index 0; np.fft.fftfreq(n) = [0,1,…,⌈n/2⌉-1,-⌊n/2⌋,…,-1]/n; '
            'np.sinc(x) = sin(πx)/(πx); np.meshgrid(x, y) puts x along columns (all modelled in Model/Blur.lean, observed through the correspondence)']
 UNPROVEN = ['even-sized axes: the deviation of the output from the exact convolution caused by the unpaired Nyquist row/column is not bounded '
@@ -91,13 +91,50 @@ def _case(rng, kmax):
     if kind == 'smear' and rng.integers(0, 3) == 0: c['random_angle_seed'] = int(rng.integers(0, 2 ** 31))
     return c
 
+def _extreme(rng, kmax, heavy):
+    """the extremes stream: physical units from 1e-12 to 1e9 (a multi-pixel blur in nano-scale units), integer frames whose total
+    exceeds the integer range of their dtype, image amplitudes from 1e-100 to 1e9, extents at 0 / denormal / tens of pixels,
+    long 1-D-like frames (`heavy`: search tier only)"""
+    c = _case(rng, kmax)
+    for k in ('defaults', 'pixelate', 'random_angle_seed'): c.pop(k, None)
+    t = int(rng.integers(0, 6 if heavy else 5))
+    if c['kind'] == 'pixel' and t in (0, 1, 4): t = 2
+    if t in (0, 1):      # the unit of extent and pixel scale
+        ps = float([1e-9, 4.85e-9, 5e-9, 1e-8, 1e-12, 2.5e-10][int(rng.integers(0, 6))]) if t == 0 else float([1e3, 1e9, 7.5e5][int(rng.integers(0, 3))])
+        c['pixelscale'] = ps; c['extent_px'] = float(rng.uniform(0.5, 3.0)) / c['oversample']; c['extent'] = c['extent_px'] * ps
+    elif t == 2:         # integer frames at the limits of their dtype
+        dt = ['int32', 'int32', 'uint16', 'int16', 'uint8', 'int64', 'uint32'][int(rng.integers(0, 7))]
+        hi = {'int32': 2 ** 31 - 1, 'uint16': 65535, 'int16': 32767, 'uint8': 255, 'int64': 10 ** 15, 'uint32': 2 ** 32 - 1}[dt]
+        m, n = c['shape']
+        if m * n < 4: c['shape'] = [3, 4]; m, n = 3, 4
+        v = rng.integers(hi // 4, hi + 1, m * n)
+        v[int(rng.integers(0, m * n))] = hi
+        c['img'] = [float(x) for x in v]; c['dtype'] = dt
+    elif t == 3:         # image amplitude
+        k = [1e-9, 1e9, 1e-100, 1e-30][int(rng.integers(0, 4))]      # (below ~1e-154 out*sum(img) underflows: floating-point range, not modelled)
+        c['img'] = [x * k for x in c['img']]
+    elif t == 4:         # extent at zero, denormal, or tens of pixels
+        e = float([0.0, 5e-324, 1e-300, 1e-12, 25.0, 60.0][int(rng.integers(0, 6))])
+        c['extent_px'] = e / c['oversample']; c['extent'] = c['extent_px'] * c['pixelscale']
+    else:                # long frames
+        L = int([257, 600, 1024][int(rng.integers(0, 3))])
+        c['shape'] = [1, L] if rng.integers(0, 2) else [L, int(rng.integers(1, 3))]
+        c['img'] = _img(rng, tuple(c['shape']))
+        c['roll'] = [int(rng.integers(-3, 4)), int(rng.integers(-L, L))]
+    return c
+
 def generate(rng, tier):
-    n, kmax = {'quick': (150, 8), 'thorough': (3000, 12), 'search': (800, 8)}[tier]
-    return [_case(rng, kmax) for _ in range(n)]
+    n, kmax = {'quick': (150, 8), 'thorough': (3000, 12), 'search': (400, 8)}[tier]
+    out = []
+    if tier == 'search': out += [_extreme(rng, kmax, True) for _ in range(220)]        # the nasty inputs first
+    for i in range(n):
+        out.append(_extreme(rng, kmax, False) if (tier != 'search' and i % 20 == 7) else _case(rng, kmax))
+    if tier == 'thorough': out += [_extreme(rng, kmax, False) for _ in range(150)]
+    return out
 
 def signature(c):
     return (f"{c['kind']} {c['shape']} os={c['oversample']} ps={c['pixelscale']} e={c.get('extent')} a={c.get('angle')} roll={c['roll']} "
-            f"d={int(bool(c.get('defaults')))} p={int(bool(c.get('pixelate')))} r={c.get('random_angle_seed')} {vlib.jhash(c['img'])}")
+            f"dt={c.get('dtype')} d={int(bool(c.get('defaults')))} p={int(bool(c.get('pixelate')))} r={c.get('random_angle_seed')} {vlib.jhash(c['img'])}")
 
 def nontrivial(c):
     return c['shape'][0] != c['shape'][1] or c['oversample'] != 1 or c['pixelscale'] != 1.0
@@ -105,6 +142,9 @@ def nontrivial(c):
 def tags(c):
     t = [c['kind'], f"os={c['oversample']}"]
     if c.get('defaults'): t.append('default-arguments')
+    if c.get('dtype'): t.append('dtype:' + c['dtype'])
+    if c['pixelscale'] < 1e-7: t.append('nano-scale-units')
+    if c['pixelscale'] > 1e2: t.append('huge-units')
     if c.get('pixelate'): t.append('pixelate')
     if 'random_angle_seed' in c: t.append('smear(angle=None)')
     if not isinstance(c['oversample'], int): t.append('fractional-oversample')
@@ -143,7 +183,9 @@ def _pack(a):
 
 def impl(c):
     lentil = vlib.import_lentil()
-    img = _image(c); img0 = img.copy()
+    img = _image(c)
+    if c.get('dtype'): img = img.astype(c['dtype'])          # integer frames (values are integers; the references use float64)
+    img0 = img.copy()
     def guarded(f):
         try: return _pack(f())
         except Exception as e: return {'exc': type(e).__name__, 'msg': str(e)[:200]}
@@ -191,7 +233,7 @@ def compare(c, io, mo):
     if 'exc' in io['out']: return f"implementation raised {io['out']['exc']}: {io['out'].get('msg')}; the model answered"
     got = _arr(io['out']); want = np.array([bitsf(x) for x in m['out']['v']]).reshape(m['out']['shape'])
     if got.shape != want.shape: return f'shape impl {got.shape} model {want.shape}'
-    tol = TOL * (1 + float(np.sum(np.abs(_image(c)))))
+    tol = TOL * max(float(np.sum(np.abs(_image(c)))), 1e-300)
     d = float(np.max(np.abs(got - want)))
     return None if d <= tol else f'max |impl - model| = {d:.3e} > {tol:.1e}'
 
@@ -225,7 +267,7 @@ def ref_convolution(c):
     return (np.conj(Wm) @ (X * transfer(c)) @ np.conj(Wn)) / (m * n)
 
 def oracle(c, io):
-    img = _image(c); S = float(img.sum()); tol = TOL * (1 + S)
+    img = _image(c); S = float(img.sum()); tol = TOL * max(S, 1e-300)      # relative to the image scale only
     if not io['input']['untouched']: return "the caller's image was modified"
     arrs = {k: d for k, d in io.items() if isinstance(d, dict) and ('v' in d or 'exc' in d)}
     if c['kind'] == 'pixel' and 'exc' in arrs.get('zero', {}): arrs.pop('zero')      # a library that refuses oversample=0 is not in violation
@@ -259,12 +301,12 @@ def oracle(c, io):
     if n % 2 == 0: nyq += float(np.sum(np.abs(X[:, n // 2])))
     nyq = 2 * nyq / (m * n)
     # where the exact convolution is real and non-negative the output equals it (and so keeps the total)
-    if float(np.max(np.abs(conv.imag))) <= 1e-12 * (1 + S) and conv.real.min() >= 0:
+    if float(np.max(np.abs(conv.imag))) <= 1e-12 * S and conv.real.min() >= 0:
         d = float(np.max(np.abs(out - conv.real)))
         if not d <= tol: return f'output differs from the exact non-negative circular convolution by {d:.3e}'
         if not abs(out.sum() - S) <= tol: return f'total not preserved by a non-negative convolution: {S} -> {out.sum()}'
     else:
-        if m % 2 == 1 and n % 2 == 1 and float(np.max(np.abs(conv.imag))) > 1e-12 * (1 + S):
+        if m % 2 == 1 and n % 2 == 1 and float(np.max(np.abs(conv.imag))) > 1e-11 * S:
             return 'odd x odd image but the reference convolution is not real (transfer function not Hermitian)'
         ref = np.abs(conv)
         if c['kind'] != 'pixel': ref = ref * S / ref.sum()
@@ -277,7 +319,7 @@ def oracle(c, io):
         if got.shape != want: return f"pixelate: shape {got.shape}, expected ceil(shape/oversample) = {want}"
         if got.shape != ref.shape or not float(np.max(np.abs(got - ref))) <= tol:
             return 'pixelate differs from rescale(pixel(img, oversample), 1/oversample, order=3, mode="nearest", unitary=True)'
-        if img.min() > 0 and not abs(got.sum() - out.sum()) <= 1e-9 * (1 + abs(out.sum())) and np.all(got > 0):
+        if img.min() > 0 and not abs(got.sum() - out.sum()) <= 1e-9 * abs(out.sum()) and np.all(got > 0):
             return f'pixelate does not keep the total of the pixel-blurred image: {out.sum()} -> {got.sum()}'
     if 'rand1' in arrs:
         r1, r2, rr = _arr(io['rand1']), _arr(io['rand2']), _arr(io['rand_ref'])
